@@ -308,9 +308,14 @@ class _Clock:
     def __init__(self):
         self.now = _dt.datetime(2030, 1, 1, 0, 0, 0)
         self.step = _dt.timedelta(seconds=61)
+        self.n = 0
 
     def tick(self):
-        self.now = self.now + self.step
+        # distinct and increasing, but not always a second apart: every third and fourth reading follows the previous one by 130 / 7 ms
+        # (listings print whole seconds; "newest first" is about the timestamps, not about what is printed)
+        self.n += 1
+        k = self.n % 5
+        self.now = self.now + (_dt.timedelta(milliseconds=130) if k == 3 else _dt.timedelta(milliseconds=7) if k == 4 else self.step)
         return self.now
 
 
@@ -323,6 +328,8 @@ class _FakeDatetime(_dt.datetime):
         return CLOCK.tick()
 
 
-def install_clock():
+def install_clock(reset=False):
     """distinct, increasing snapshot timestamps (the properties quantify over distinct timestamps)"""
     rrepo.datetime = _FakeDatetime
+    if reset:
+        CLOCK.now = _dt.datetime(2030, 1, 1, 0, 0, 0)
